@@ -117,6 +117,15 @@ CLAIMED = {
             "identically (value-level), nor that re-derived values equal the live ones.",
             "marshal/read field-coverage and envelope symmetry (sibling-table agreement over go/ssa field accesses), dominance",
             "DESIGN.md §4 C02"),
+    "C19": ("Structural necessary conditions of URN redaction: a taint analysis (sources: urns.URN values and every result of the "
+            "urns API other than the scheme, ContactURN.URN()/String(); sinks: all 150 XText constructor sites of the library) "
+            "proving that URN-derived text becomes an expression value only inside ContactURN.ToXValue via withoutQuery(policy==urns); "
+            "withoutQuery and Contact.Format (and any environment-aware string formatter of the flows packages) return URN-derived "
+            "text only on the edge dominated by the non-redacting policy test; every construction of a URN-typed query condition, the "
+            "urn attribute and the bare-number tel rewrite are guarded by a policy test; the positive direction keeps scheme, path and "
+            "display. Does not decide non-interference for values that enter the context as plain data.",
+            "intraprocedural API-aware taint analysis over go/ssa, guard (edge-dominance) checks",
+            "DESIGN.md §4 C19"),
 }
 
 NOT_APPLICABLE = {}
